@@ -52,6 +52,9 @@ type zzSCEnv struct {
 	posts     []string // URL of every POST
 	postBody  int      // response bodies of POSTs closed
 	readers   map[*bufio.Reader]*zzSCReader
+	hold      bool          // the server sits on the next POST (a slow peer) until release is closed
+	entered   chan struct{} // closed when the held POST has reached the server
+	release   chan struct{}
 }
 
 var zzSC *zzSCEnv
@@ -116,8 +119,16 @@ func zzSCDo(_ *http.Client, req *http.Request) (*http.Response, error) {
 		}
 		return &http.Response{StatusCode: e.status, Body: e.body, Header: http.Header{}}, nil
 	}
+	if err := req.Context().Err(); err != nil {
+		return nil, err // (net/http: a request whose context has ended is not sent)
+	}
 	e.posts = append(e.posts, req.Host)
 	vAssert(req.Header.Get("Content-Type") == "application/json", "C12.sse-client.post-is-json")
+	if e.hold {
+		e.hold = false
+		close(e.entered)
+		<-e.release
+	}
 	if e.postFails {
 		return nil, errors.New("write tcp: broken pipe")
 	}
@@ -214,6 +225,24 @@ func zzSSEClient() {
 		vAssert((werr == nil) == ok, "C01.sse-client.write-reports-the-servers-verdict")
 		if !env.postFails {
 			vAssert(env.postBody == 1, "C05.sse-client.post-body-closed")
+		}
+		if vBool("aPostIsHeldByASlowPeer") {
+			// (C04) one write — say a cancellation notice — is stuck at a slow peer: other writes do not queue behind it;
+			// in particular one whose context has already ended returns at once
+			env.hold, env.entered, env.release = true, make(chan struct{}), make(chan struct{})
+			stuckDone := make(chan struct{})
+			vGo(func() {
+				c.Write(ctx, &jsonrpc.Request{Method: "notifications/cancelled"})
+				close(stuckDone)
+			})
+			<-env.entered
+			gone, cancel := context.WithCancel(ctx)
+			cancel()
+			vAssert(c.Write(gone, &jsonrpc.Request{Method: "ping"}) != nil, "C04.sse-client.write-with-ended-context-fails")
+			vReach("not-queued-behind-a-stuck-write") // (a write that waits for the stuck one never gets here: DEADLOCK)
+			close(env.release)
+			<-stuckDone // (not vJoin: the pump goroutine of the live stream runs until Close)
+			env.posts = env.posts[:1]
 		}
 		vAssert(c.Close() == nil && b.closed == 1, "C05.sse-client.close-closes-the-stream")
 		vAssert(c.Close() == nil && b.closed == 1, "C05.sse-client.close-idempotent")
